@@ -12,7 +12,7 @@
 (*    that TLC checks  Impl => Requirement  over every interleaving;       *)
 (*  - driven by events recorded from the real code (AdvTrace.tla), which   *)
 (*    decides the verdict of the checks.                                   *)
-(* m.bad is "" or the name of the first violated clause.                   *)
+(* m.bad is the set of names of the clauses violated so far.               *)
 (***************************************************************************)
 EXTENDS Integers, Sequences, FiniteSets
 
@@ -55,9 +55,9 @@ ReqInit(unicast, cfglife, monitorMode) ==
     resumeAt |-> -1,           \* next ReadFrom must be issued exactly then (back-off)
     exp      |-> ZeroCnt,      \* counters the requirement expects
     obs      |-> ZeroCnt,      \* counters observed
-    bad      |-> "" ]
+    bad      |-> {} ]      \* names of the violated clauses
 
-Flag(m, s) == IF m.bad = "" THEN [m EXCEPT !.bad = s] ELSE m
+Flag(m, s) == [m EXCEPT !.bad = @ \cup {s}]
 Up(m) == m.k # 0
 Live(m) == Up(m) /\ m.cancelAt = -1 /\ m.faultAt = -1
 
